@@ -550,13 +550,32 @@ Proof.
     rewrite uvis_ok by exact Hs. kred. rewrite unil_nil. reflexivity. }
 Qed.
 
+(* third clause: whatever the reference reads under [m] is the k-byte big-endian value (an
+   implication, not an equation: the reference may refuse payloads the parser reads - a char
+   above 127 is malformed for the reference, the lenient parser delivers it) *)
 Definition frow (m stp k : Z) (K : nkind) (g : Z -> Z) : Prop :=
+  marker_state m = Some (mku tFixed stp) /\
+  fixed_tab stp = Some (k, fun v => EVal (SNum K (g v))) /\
+  (forall f b v rest, ubj_payload (S f) m b = RValue v rest ->
+     exists a, take k b = Some (a, rest) /\ v = CNum (canon_num K (g (be_dec a)))) /\
+  (forall a, zlen a = k -> all_bytes a = true -> nkind_ok K (g (be_dec a)) = true) /\
+  (forall z, scalar_matches (marker_btype m) (SNum K z) = true) /\ 1 <= k /\ zpay m = 2%nat.
+
+(* the rows whose reference payload IS the k-byte read *)
+Definition frow_eq (m stp k : Z) (K : nkind) (g : Z -> Z) : Prop :=
   marker_state m = Some (mku tFixed stp) /\
   fixed_tab stp = Some (k, fun v => EVal (SNum K (g v))) /\
   (forall f b, ubj_payload (S f) m b =
      match take k b with Some (a, r) => RValue (CNum (canon_num K (g (be_dec a)))) r | None => RTruncated end) /\
   (forall a, zlen a = k -> all_bytes a = true -> nkind_ok K (g (be_dec a)) = true) /\
   (forall z, scalar_matches (marker_btype m) (SNum K z) = true) /\ 1 <= k /\ zpay m = 2%nat.
+
+Lemma frow_of_eq m stp k K g : frow_eq m stp k K g -> frow m stp k K g.
+Proof.
+  intros (H1 & H2 & H3 & H4). split; [exact H1|]. split; [exact H2|]. split; [|exact H4].
+  intros f b v rest H. rewrite H3 in H. destruct (take k b) as [[a r]|]; [|discriminate].
+  inversion H; subst v rest. exists a. split; reflexivity.
+Qed.
 
 Lemma tm_val bt s r : tree_matches bt (TVal s r) = scalar_matches bt s.
 Proof. destruct bt; reflexivity. Qed.
@@ -566,8 +585,7 @@ Lemma fixed_goal m stp k K g f b v rest p s : frow m stp k K g ->
   pgoal m (mku tFixed stp) b v rest p s.
 Proof.
   intros (Hms & Htab & Href & Hok & Hmat & Hk & Hzp) H Hb (Hbuf & Hmk & Hcur & Hv) Hs.
-  rewrite Href in H. destruct (take k b) as [[a r]|] eqn:Ht; [|discriminate].
-  inversion H; subst v rest. clear H.
+  destruct (Href _ _ _ _ H) as (a & Ht & ->). clear H. rename rest into r.
   destruct (take_bytes _ _ _ _ Ht Hb) as [Hba Hbr].
   pose proof (take_some _ _ _ _ Ht) as (_ & _ & _ & _ & _ & Hza).
   exists (TVal (SNum K (g (be_dec a))) false), 0%nat, (up_vtype p).
@@ -603,24 +621,30 @@ Proof.
 Qed.
 
 Lemma row_i : frow mi sInt8 1 KInt8 (wraps 8).
-Proof. repeat split; try reflexivity; try lia. intros a _ _. apply wraps_in_s_8. Qed.
+Proof. apply frow_of_eq. repeat split; try reflexivity; try lia. intros a _ _. apply wraps_in_s_8. Qed.
 Lemma row_U : frow mU sUInt8 1 KUint8 (fun v => v).
-Proof. repeat split; try reflexivity; try lia. intros a Hl Hb.
+Proof. apply frow_of_eq. repeat split; try reflexivity; try lia. intros a Hl Hb.
   apply (be_dec_in_u a 1 8 256); auto. Qed.
 Lemma row_C : frow mC sChar 1 KByte (fun v => v).
-Proof. repeat split; try reflexivity; try lia. intros a Hl Hb.
-  apply (be_dec_in_u a 1 8 256); auto. Qed.
+Proof.
+  split; [reflexivity|]. split; [reflexivity|]. split.
+  { intros f b v rest H. rewrite pl_C in H. destruct b as [|c r]; [discriminate|].
+    destruct (c >? 127); [discriminate|]. inversion H; subst v rest.
+    exists [c]. rewrite take_1, be_dec_1. split; reflexivity. }
+  repeat split; try reflexivity; try lia. intros a Hl Hb.
+  apply (be_dec_in_u a 1 8 256); auto.
+Qed.
 Lemma row_I : frow mI sInt16 2 KInt16 (wraps 16).
-Proof. repeat split; try reflexivity; try lia. intros a _ _. apply wraps_in_s_16. Qed.
+Proof. apply frow_of_eq. repeat split; try reflexivity; try lia. intros a _ _. apply wraps_in_s_16. Qed.
 Lemma row_l : frow ml sInt32 4 KInt32 (wraps 32).
-Proof. repeat split; try reflexivity; try lia. intros a _ _. apply wraps_in_s_32. Qed.
+Proof. apply frow_of_eq. repeat split; try reflexivity; try lia. intros a _ _. apply wraps_in_s_32. Qed.
 Lemma row_L : frow mL sInt64 8 KInt64 (wraps 64).
-Proof. repeat split; try reflexivity; try lia. intros a _ _. apply wraps_in_s_64. Qed.
+Proof. apply frow_of_eq. repeat split; try reflexivity; try lia. intros a _ _. apply wraps_in_s_64. Qed.
 Lemma row_d : frow md sFloat32 4 KFloat32 (fun v => v).
-Proof. repeat split; try reflexivity; try lia. intros a Hl Hb.
+Proof. apply frow_of_eq. repeat split; try reflexivity; try lia. intros a Hl Hb.
   apply (be_dec_in_u a 4 32 4294967296); auto. Qed.
 Lemma row_D : frow mD sFloat64 8 KFloat64 (fun v => v).
-Proof. repeat split; try reflexivity; try lia. intros a Hl Hb.
+Proof. apply frow_of_eq. repeat split; try reflexivity; try lia. intros a Hl Hb.
   apply (be_dec_in_u a 8 64 18446744073709551616); auto. Qed.
 
 (* zero-sized scalars as elements of a typed container *)
